@@ -460,6 +460,17 @@ class CryptographyEngine(api.CryptographicEngine):
                 "Invalid key bytes for the specified encryption algorithm."
             )
 
+        if encryption_algorithm == enums.CryptographicAlgorithm.RC4 and \
+                cipher_mode in [
+                    enums.BlockCipherMode.CBC,
+                    enums.BlockCipherMode.ECB,
+                    enums.BlockCipherMode.GCM
+                ]:
+            raise exceptions.InvalidField(
+                "Cipher mode '{0}' cannot be used with the RC4 stream "
+                "cipher.".format(cipher_mode)
+            )
+
         is_gcm_mode = cipher_mode == enums.BlockCipherMode.GCM
         if not is_gcm_mode and auth_additional_data is not None:
             raise exceptions.InvalidField(
@@ -834,6 +845,17 @@ class CryptographyEngine(api.CryptographicEngine):
             self.logger.exception(e)
             raise exceptions.CryptographicFailure(
                 "Invalid key bytes for the specified decryption algorithm."
+            )
+
+        if decryption_algorithm == enums.CryptographicAlgorithm.RC4 and \
+                cipher_mode in [
+                    enums.BlockCipherMode.CBC,
+                    enums.BlockCipherMode.ECB,
+                    enums.BlockCipherMode.GCM
+                ]:
+            raise exceptions.InvalidField(
+                "Cipher mode '{0}' cannot be used with the RC4 stream "
+                "cipher.".format(cipher_mode)
             )
 
         is_gcm_mode = cipher_mode == enums.BlockCipherMode.GCM
